@@ -125,7 +125,7 @@ def _run(chk, wd, proved):
             if counts['monitor'] <= 5:
                 chk.violation({'kind': 'the implementation breaks the listener protocol property on this history',
                                'case': m, 'monitor': why})
-        if tag == 'A-whole':
+        if tag == 'A-whole' and all(o.startswith('SOut ') for o in trace[0][1]):
             outs = [o.split(' ', 2)[2] for o in trace[0][1]]     # 'SOut 0 (X)' -> '(X)'
             spec_cases.append('(%s, %s, %s, %s, %s, %s)' % (
                 zlit(hk), zlit(maxdig), drv.run_case.last_start_listeners[0], bytes_lit(ops[0][2]),
